@@ -7,6 +7,9 @@ import Logrange.Generated.C19
 * `reset`                       — empty registry
 * `create|ensure <name> <tags> <flt> <parses 0|1>`, `delete <name>`, `get <name>`
 * `show <limit|none> <offset|none>` — `SHOW PIPES` paging over the model's own (sorted) listing
+* `saverace <name>,<name>,… <actor>*` — concurrent creates of the given (fresh) names with persistence: the schedule of atomic
+                                  steps (two critical sections, snapshot, write; a step blocked on the save mutex is skipped)
+                                  → `disk <sorted names on disk> acked <actors told "created">`
 * `restart` / `crash`           — clean stop + start / start on what `savePipes` left on disk → `ok <n> <sorted names>` or `refused`
 * `spec.sorted <name>*`         — SPEC: the names sorted in Go string order, duplicates kept
 -/
@@ -55,6 +58,14 @@ def step (s : PState) (toks : List String) : PState × String :=
   | ["ensure", n, t, f, ok] => regOp s (.ensure ⟨unhex n, unhex t, unhex f⟩ (ok == "1"))
   | ["delete", n] => regOp s (.delete (unhex n))
   | ["get", n] => regOp s (.get (unhex n))
+  | "saverace" :: names :: sched =>
+    let wants : List Pipe := (names.splitOn ",").map (fun n => (⟨unhex n, [], []⟩ : Pipe))
+    let fin := srun Logrange.Generated.C19.savePipesSerialized
+      ⟨[], [], none, wants.map (fun w => (w, SPc.start))⟩ (sched.filterMap String.toNat?)
+    let acked := (List.range fin.pcs.length).filter (fun i => match fin.pcs[i]? with
+      | some (_, .done true) => true
+      | _ => false)
+    (s, s!"disk {hexList (sortBytes (fin.disk.map (·.name)))} acked {" ".intercalate (acked.map toString)}")
   | ["restart"] => startOp s .restart
   | ["crash"] => startOp s .crash
   | ["show", lim, offs] =>
